@@ -5,6 +5,7 @@ func init() {
 		info: PropInfo{
 			Bounds: []string{
 				"kernel calcBitIndex: output zoom case-split over 0..3 (quick) / 0..4 (thorough); altitude(s) and height range any reals with |.| <= 10^6 and max-min >= 1e-3: index in 0..2^zoom-1, monotone in the altitude, clamped below/above the range — relaxed encoding with the rounding error as a monotone function of the exact result (over-approximates IEEE binary64)",
+				"kernel structure at output zooms 1, 5, 8, 16, 35 (thorough also 24): index in 0..2^zoom-1 and monotone in the altitude for ANY doubles (float arithmetic uninterpreted, comparisons exact; one-shot z3 5.1 per query)",
 				"forward entry convertVerticallIDToBit: the returned set is exactly the run from the bottom cell to the top cell (run length <= 4), for (voxel zoom, output zoom) in {(0,1),(0,2),(20,1)}",
 				"maxHeight < minHeight: error in both directions (any doubles)",
 			},
@@ -40,6 +41,18 @@ func init() {
 					in.Unwind = 40
 					is = append(is, in)
 				}
+			}
+			for _, z := range []int{1, 5, 8, 16, 24, 35} {
+				if tier == "quick" && z == 24 {
+					continue
+				}
+				in := mk("transform", "VerifC17Structure", cs("zoom", z))
+				in.Opaque = true
+				in.Solver = Z3New
+				in.Stateless = true // one-shot z3 decides the 35-level ite chains in seconds; its incremental core does not
+				in.Unwind = 40
+				in.Timeout = 120000
+				is = append(is, in)
 			}
 			e := mk("transform", "VerifC17Errors", nil)
 			e.Solver = CVC5
